@@ -249,6 +249,9 @@ def write_evidence(ctx, coverage, assumptions, violations):
         "violations": violations,
     }
     path = os.path.join(VERIF, "evidence", f"{ctx.pid}.json")
+    if os.environ.get("VERIF_REPO") and os.path.realpath(os.environ["VERIF_REPO"]) != os.path.realpath("/repo"):
+        # a run against a scratch tree (seeded change) must not overwrite the evidence of the real tree
+        path = os.path.join(VERIF, "evidence", f"{ctx.pid}.scratch.json")
     tmp = path + f".{os.getpid()}.tmp"
     with open(tmp, "w") as f:
         json.dump(ev, f, indent=1, sort_keys=True, default=str)
